@@ -22,9 +22,10 @@ const (
 	Err
 	Block // wait on the harness gate, then pass
 	ErrEv // return the event AND an error (the error must still stop the traversal)
+	ErrCtx // fail with the node's own, private timeout: an error that wraps context.DeadlineExceeded
 )
 
-var scriptNames = [...]string{"pass", "replace", "drop", "err", "block", "err+event"}
+var scriptNames = [...]string{"pass", "replace", "drop", "err", "block", "err+event", "err(ctx-like)"}
 
 func (s Script) String() string { return scriptNames[s] }
 
@@ -103,6 +104,7 @@ type Node struct {
 	L      *Log
 	Gate   *vrt.Gate
 	TheErr *NodeErr
+	CtxErr error
 
 	Closes     int
 	Reopens    int
@@ -145,6 +147,8 @@ func (n *Node) Process(ctx context.Context, e *el.Event) (*el.Event, error) {
 		err = n.TheErr
 	case ErrEv:
 		out, err = e, n.TheErr
+	case ErrCtx:
+		err = n.CtxErr
 	case Block:
 		n.Gate.Wait()
 		out = e
@@ -189,7 +193,8 @@ func (n CNode) Close(ctx context.Context) error {
 // NewNode builds a recording node; with closer=true the returned value
 // implements Closer.
 func NewNode(l *Log, name string, typ el.NodeType, s Script, gate *vrt.Gate) *Node {
-	return &Node{Name: name, Typ: typ, Script: s, L: l, Gate: gate, TheErr: &NodeErr{Node: name}}
+	return &Node{Name: name, Typ: typ, Script: s, L: l, Gate: gate, TheErr: &NodeErr{Node: name},
+		CtxErr: fmt.Errorf("node %s: private timeout: %w", name, context.DeadlineExceeded)}
 }
 
 // AsNode returns the value to register: a Closer unless NoCloser is set.
